@@ -15,13 +15,13 @@ for cls in (C05, C01, C03, C04, C10, C11, C19, C02, C06, C12, C08, C09, C17, C14
 
 # tie T1: which re-translated functions (GenEq/<name>.v) each property's theorems are about.  A function's equality also breaks
 # when something it calls changes (the regenerated caller refers to the regenerated callee), so only entry points are listed.
-_API = ["Fb_new", "Fb_empty", "Fb_filled", "Fb_len", "Fb_is_empty", "Fb_clear", "Fb_mem_", "Fb_readable", "Fb_read_bytes", "Fb_read_byte",
+_API = ["Fb_new", "Fb_empty", "Fb_filled", "Fb_default", "Fb_into_inner", "Fb_len", "Fb_is_empty", "Fb_clear", "Fb_mem_", "Fb_readable", "Fb_read_bytes", "Fb_read_byte",
         "Fb_try_read_byte", "Fb_try_read_bytes", "Fb_read_all", "Fb_read_and_copy_bytes", "Fb_try_read_exact", "Fb_writable", "Fb_wrote",
         "Fb_write_bytes", "Fb_write_str", "Fb_shift", "Fb_try_parse", "Fb_deframe", "Fb_io_write", "Fb_io_flush", "Fb_io_read",
         "Fb_copy_once_from", "Fb_read_frame"]
 _DF = ["Df_deframe_line", "Df_deframe_crlf", "Df_deframe_null"]
 _READS = ["Fb_read_bytes", "Fb_read_byte", "Fb_try_read_byte", "Fb_try_read_bytes", "Fb_read_all", "Fb_read_and_copy_bytes", "Fb_try_read_exact"]
-_AFB = ["Tk_afb_poll_read", "Tk_afb_poll_write", "Tk_afb_poll_flush", "Tk_afb_poll_shutdown"]
+_AFB = ["Tk_afb_new", "Tk_afb_empty", "Tk_afb_filled", "Tk_afb_into_inner", "Tk_afb_poll_read", "Tk_afb_poll_write", "Tk_afb_poll_flush", "Tk_afb_poll_shutdown"]
 _AAD_R = ["Ta_achain_poll_read", "Ta_atake_poll_read"]
 _AAD_W = ["Ta_achain_poll_write", "Ta_achain_poll_flush", "Ta_achain_poll_shutdown", "Ta_atake_poll_write", "Ta_atake_poll_flush", "Ta_atake_poll_shutdown"]
 _ASYNC = ["Tk_arf_pre", "Tk_arf_post", "Tk_aco_pre", "Tk_aco_post"]
